@@ -93,11 +93,11 @@ prop("C10", "proof", "scanLCP modelled as the exact stack machine; soundness, co
      "as C01", GEN_RULE, "§8 C10")
 prop("C11", "proof", "DP optimality over stored edges proved in Lean (with the literal relaxation); edges/DP modelled exactly incl. tie-breaking; Go oracle compares with an independent brute-force optimum",
      "Lean 4 optimality proof of the DP + differential correspondence + brute-force oracle",
-     [S("p-osap", 250, 4000, ["osap.block.withmatches", "osap.after-shrink"])],
+     [S("p-osap", 250, 4000, ["osap.block.withmatches", "osap.after-shrink"]), S("p-large", 4, 80, ["p.large.osapfar"], hang="120s")],
      "edge completeness w.r.t. the suffix array is a named hypothesis until discharged", GEN_RULE, "§8 C11")
 prop("C12", "proof", "rank-neighbour maximality (sandwich lemma) proved in Lean; GSAP loop modelled exactly; bitset word layout tied to the set model; brute-force longest-match oracle",
      "Lean 4 proof (neighbour maximality) + differential correspondence + brute-force oracle",
-     [S("p-gsap", 300, 5000, ["gsap.match.checked", "gsap.literal.checked", "gsap.after-shrink"]), S("u-units", 100, 1500, ["u.bitset.clear"])],
+     [S("p-gsap", 300, 5000, ["gsap.match.checked", "gsap.literal.checked", "gsap.after-shrink", "p.midsa"]), S("u-units", 100, 1500, ["u.bitset.clear"])],
      "histories without Parse(nil) as the property states", GEN_RULE, "§8 C12")
 prop("C13", "proof", "Reset clears every search structure in the model (tied by correspondence on post-Reset behaviour and twin comparison with a fresh parser); no shared mutable state is a decide-d fact over the regenerated package variables",
      "Lean 4 facts over regenerated source data + twin-parser differential runs",
@@ -111,7 +111,7 @@ prop("C14", "proof", "Parse(nil) accounting and drain theorem in Lean; generator
 prop("C15", "proof", "refinement of ParserBuffer to (fed, Off) with the 7-byte margin invariant; probes at Off-1, Off, Off+len-1, Off+len, Off+len+1; readers with short reads and errors; Reset(data) with every capacity class",
      "Lean 4 refinement proof + differential correspondence",
      [S("p-view", 300, 5000, ["p.shrink.effective", "p.readat.pastend", "p.byteat.end", "p.write.full", "p.readfrom.full", "p.reset.data"]),
-      S("p-bigbuf", 8, 200, ["p.bigbuf", "p.shrink.effective", "p.readfrom.full"])],
+      S("p-bigbuf", 8, 200, ["p.bigbuf", "p.shrink.effective", "p.readfrom.full"]), S("p-large", 4, 80, ["p.parse.matches"], hang="120s")],
      "as C01", GEN_RULE, "§8 C15")
 prop("C16", "proof", "NewParser ⇔ Verify∘SetDefaults over Int fields; the bodies of every SetDefaults/Verify are re-translated from the Go source on every run and proved equal to the model (GenProps); panic guards in the model are values; boundary configurations through several fills under recover and watchdog; large geometries (oracle only)",
      "Lean 4 proof + regenerated Go->Lean translation of the configuration code + differential correspondence on wild configurations",
